@@ -645,4 +645,20 @@ theorem prune_idem (K : List String) (u : Cfg α) : prune K (prune K u) = prune 
     · exact iht
   case mk => intro k v ih; exact ih
 
+theorem mem_dedup (k : String) (l : List String) : k ∈ dedup l ↔ k ∈ l := by
+  induction l with
+  | nil => simp [dedup]
+  | cons a t ih =>
+    simp only [dedup]
+    split_ifs with h
+    · have h' : a ∈ t := by simpa using h
+      rw [ih]
+      simp only [List.mem_cons]
+      constructor
+      · exact Or.inr
+      · rintro (rfl | h2)
+        · exact h'
+        · exact h2
+    · simp [ih]
+
 end Snow.Cfg
